@@ -80,7 +80,7 @@ def table_expect(feed_bytes):
 
 # ---------------------------------------------------------------------------------------------
 # script builders
-def s1090(key, sends, expect_names, fd, close=False, allow_unknown=False, nogap=False, close_gap=False):
+def s1090(key, sends, expect_names, fd, close=False, allow_unknown=False, nogap=False, close_gap=False, no_render=False):
     """sends: list of byte segments, a read-timeout gap between consecutive ones (nogap: back-to-back sends)"""
     steps = []
     for i, seg in enumerate(sends):
@@ -98,7 +98,7 @@ def s1090(key, sends, expect_names, fd, close=False, allow_unknown=False, nogap=
         steps.append({'op': 'expect', 'line': fd.sent_payload, 'after': fd.block_len[fd.sent_payload] - 1})
     return {'binary': '1090', 'oracle': 'c16_1090', 'key': key, 'argv': [], 'steps': steps,
             'segments': [hexs(s) for s in sends], 'names': fd.names, 'blocks': fd.blocks,
-            'expect_echo': expect_names + ([] if close else ['S']), 'allow_unknown': allow_unknown,
+            'expect_echo': expect_names + ([] if close else ['S']), 'allow_unknown': allow_unknown, 'no_render': no_render,
             'expected': 'echo sequence == %s (each complete line once, in order, followed by its rendering); '
                         'process alive' % ','.join(expect_names + ([] if close else ['S']))}
 
@@ -196,6 +196,13 @@ def judge_1090(script, obs):
     elif unknown and not script.get('allow_unknown'):
         probs.append('extra-echo')
         cls = cls or '1090-extra-echo'
+    # a skipped (malformed / all-zero / undecodable) line may be echoed, but nothing may be rendered for it:
+    # renderings are indented, echoes are not
+    if script.get('no_render'):
+        rendered = [u[1:] for u in unknown if u[1:].startswith(' ')]
+        if rendered:
+            probs.append('rendered-skipped-line=%s' % rendered[0].strip()[:40])
+            cls = cls or '1090-malformed-line-rendered'
     outcome_sig = 'echo=%s|unk=%d|%s' % (','.join(named), len(unknown), 'alive' if obs.get('alive_at_end') else 'dead')
     summary = {'events': len(script['steps']), 'screens': [], 'outcome': outcome_sig}
     if not probs:
@@ -362,11 +369,18 @@ def enumerate_scripts(tier, fd):
                     alts.append(a3)
             # timing A: own segment, gap before and after
             segsA = [s for s in (pre, mb, post) if s]
-            out.append(s1090('1090|mal=%s@%d|own-segment' % (name, j), segsA, ['L1', 'L2', 'L3'], fd, allow_unknown=True))
+            nr = name not in ('long300', 'crlf')
+            out.append(s1090('1090|mal=%s@%d|own-segment' % (name, j), segsA, ['L1', 'L2', 'L3'], fd, allow_unknown=True, no_render=nr))
             out.append(sradar('radar|mal=%s@%d|own-segment' % (name, j), segsA, segsA[-1].count(b'\n'), {'table': alts}))
             # timing B: one send with everything (busy traffic, no read timeout anywhere)
             one = pre + mb + post
-            out.append(s1090('1090|mal=%s@%d|same-send' % (name, j), [one], ['L1', 'L2', 'L3'], fd, allow_unknown=True))
+            out.append(s1090('1090|mal=%s@%d|same-send' % (name, j), [one], ['L1', 'L2', 'L3'], fd, allow_unknown=True, no_render=nr))
+            # timing C: the malformed line itself is split by a read timeout (its head is valid text), then the rest
+            if len(mb) > 6 and j in (0, 2):
+                cutp = 5 if name != 'badutf8' else 3
+                segsC = [s for s in (pre + mb[:cutp], mb[cutp:] + post) if s]
+                out.append(s1090('1090|mal=%s@%d|split' % (name, j), segsC, ['L1', 'L2', 'L3'], fd, allow_unknown=True, no_render=nr))
+                out.append(sradar('radar|mal=%s@%d|split' % (name, j), segsC, segsC[-1].count(b'\n'), {'table': alts}))
             out.append(sradar('radar|mal=%s@%d|same-send' % (name, j), [one], one.count(b'\n'), {'table': alts}))
             # the option that looks at the first payload byte before decoding (all feed lines are DF17: same tables)
             if j in (0, 2):
